@@ -29,6 +29,20 @@ def emit_cover(module, constants, invariants, workdir, tag, view="View", heap="8
     return res, scripts, n
 
 
+def filter_last_op(scripts_file, last_ops):
+    """Keep the scripts whose last operation is one of last_ops (fault targets)."""
+    out = scripts_file + ".flt"
+    n = 0
+    pat = re.compile(r'\[\\"(\w+)\\",-?\d+,-?\d+\]\]"\s*$')
+    with open(scripts_file) as fi, open(out, "w") as fo:
+        for line in fi:
+            m = pat.search(line)
+            if m and m.group(1) in last_ops:
+                fo.write(line)
+                n += 1
+    return out, n
+
+
 def model_check(module, constants, invariants, workdir, view="View", heap="8g", timeout=3000, properties=(), constraints=()):
     cfg = cfg_text(constants, invariants=invariants, view=view, properties=properties, constraints=constraints)
     return tlc(module, cfg, workdir, heap=heap, timeout=timeout)
@@ -152,7 +166,10 @@ def run_task(t):
             break
         idx, lines = script_of_line(cur_trace, line_no, t["reset_event"])
         script_line = cur_part_lines[offset_scripts + idx] if offset_scripts + idx < len(cur_part_lines) else None
-        first = sum(1 for _ in open(cur_trace)) if False else 0
+        mm = re.search(r'"n":(\d+)', lines[-1]) if lines else None
+        if mm:      # the interpreter numbers the scripts of this chunk itself (fault mode runs several executions per script)
+            k = int(mm.group(1))
+            script_line = cur_part_lines[k] if k < len(cur_part_lines) else script_line
         # position of the unmatched event inside the rejected execution
         before = 0
         with open(cur_trace) as f:
